@@ -25,6 +25,7 @@ type c19Writer struct {
 	Sizes        []int
 	PauseEvery   int // 0 = backlogged
 	PauseMs      int
+	StartMs      int `json:",omitempty"` // the writer starts that much later
 }
 
 type c19Case struct {
@@ -42,7 +43,10 @@ type c19Case struct {
 	CloseStormMs int `json:",omitempty"`
 	// EarlierRx/EarlierTx > 0: the user has been active before on this server, with these rates configured; all its
 	// sessions ended, an administrator then set the rates of this case, and now the user comes back
-	EarlierRx int64 `json:",omitempty"`
+	// DropSession0Ms > 0: at that moment every connection of the user's first session is reset (with whatever its
+	// senders have queued in the limiter); the user's other sessions carry on
+	DropSession0Ms int   `json:",omitempty"`
+	EarlierRx      int64 `json:",omitempty"`
 	EarlierTx int64 `json:",omitempty"`
 	Writers   []c19Writer
 }
@@ -278,6 +282,9 @@ func c19Run(t *testing.T) func(sc c19Case) (vk.Result, error) {
 				wg.Add(1)
 				go func(w c19Writer, st *mux.Stream) {
 					defer wg.Done()
+					if w.StartMs > 0 {
+						time.Sleep(time.Duration(w.StartMs) * time.Millisecond)
+					}
 					buf := make([]byte, 16132)
 					// runaway guard: without a working limiter a backlogged writer would spin without the
 					// virtual clock ever advancing; stop once far more than the allowance has been sent
@@ -301,6 +308,14 @@ func c19Run(t *testing.T) func(sc c19Case) (vk.Result, error) {
 						}
 					}
 				}(w, st)
+			}
+			if sc.DropSession0Ms > 0 {
+				go func() {
+					time.Sleep(time.Duration(sc.DropSession0Ms) * time.Millisecond)
+					for c := 0; c < sc.Conns; c++ {
+						links[c].Reset()
+					}
+				}()
 			}
 			if sc.CloseStormMs > 0 {
 				go func() {
@@ -388,7 +403,7 @@ func c19Run(t *testing.T) func(sc c19Case) (vk.Result, error) {
 				return
 			}
 			T := elapsed.Seconds()
-			if txBack && sc.Seconds >= 5 && sc.CloseStormMs == 0 {
+			if txBack && sc.Seconds >= 5 && sc.CloseStormMs == 0 && sc.DropSession0Ms == 0 {
 				got := sum(txEvs)
 				min := 0.99*float64(sc.TxRate)*T - float64(sc.TxRate) - 16400*float64(txWriters+1)
 				if float64(got) < min {
@@ -397,7 +412,7 @@ func c19Run(t *testing.T) func(sc c19Case) (vk.Result, error) {
 				}
 				res.Labels = append(res.Labels, "tx-backlogged")
 			}
-			if rxBack && rxBig && sc.Seconds >= 5 && sc.CloseStormMs == 0 { // senders whose streams the peer closed stop early
+			if rxBack && rxBig && sc.Seconds >= 5 && sc.CloseStormMs == 0 && sc.DropSession0Ms == 0 { // senders whose streams the peer closed stop early
 				got := sum(rx)
 				min := 0.985*float64(sc.RxRate)*T - float64(sc.RxRate) - 16400*float64(rxWriters+sc.Conns*sc.Sessions+1)
 				if float64(got) < min {
@@ -424,6 +439,9 @@ func c19Run(t *testing.T) func(sc c19Case) (vk.Result, error) {
 			}
 			if sc.CloseStormMs > 0 {
 				res.Labels = append(res.Labels, "all-streams-closed-at-once")
+			}
+			if sc.DropSession0Ms > 0 {
+				res.Labels = append(res.Labels, "one-session-dropped-with-senders-queued:sibling-sends-later")
 			}
 			vk.AddLabel("C19", "Rates", "tx-events", int64(len(txEvs)))
 			vk.AddLabel("C19", "Rates", "rx-events", int64(len(rx)))
@@ -522,6 +540,24 @@ func c19Gen(rt *rapid.T) c19Case {
 			sc.Writers[i].Sesh %= sc.Sessions
 		}
 		sc.CloseStormMs = rapid.SampledFrom([]int{1, 500, 2000, 4000}).Draw(rt, "stormat")
+	}
+	if !deep && sc.CloseStormMs == 0 && rapid.IntRange(0, 5).Draw(rt, "siblingdrop") == 0 {
+		// the user's first session has many download senders queued in the limiter when all its connections fail; a
+		// sibling session that was silent until then starts a backlog some time later
+		sc.Sessions = rapid.IntRange(2, 3).Draw(rt, "dropsessions")
+		sc.TxRate = rapid.SampledFrom([]int64{5000, 20000, 100000}).Draw(rt, "droprate")
+		sc.Streams = rapid.IntRange(8, 10).Draw(rt, "dropstreams")
+		sc.Seconds = rapid.IntRange(40, 60).Draw(rt, "dropseconds")
+		sc.ParallelAdmit = false
+		sc.DropSession0Ms = rapid.SampledFrom([]int{2000, 5000, 9000}).Draw(rt, "dropat")
+		sc.Writers = nil
+		for k := 0; k < sc.Streams; k++ {
+			sc.Writers = append(sc.Writers, c19Writer{Sesh: 0, Stream: k, Sizes: []int{rapid.SampledFrom([]int{16132, 8000, 12000}).Draw(rt, "dropsize")}})
+		}
+		late := sc.DropSession0Ms + rapid.SampledFrom([]int{1000, 15000, 25000}).Draw(rt, "latestart")
+		for k, n := 0, rapid.IntRange(1, 4).Draw(rt, "latewriters"); k < n; k++ {
+			sc.Writers = append(sc.Writers, c19Writer{Sesh: 1, Stream: k, Sizes: []int{rapid.SampledFrom([]int{16132, 1500, 8000}).Draw(rt, "latesize")}, StartMs: late})
+		}
 	}
 	if rapid.IntRange(0, 3).Draw(rt, "earlier") == 0 {
 		f := rapid.SampledFrom([]int64{10, 100, 3}).Draw(rt, "earlierfactor")
